@@ -38,7 +38,7 @@ REACH = [
 PLAN = {
     "quick": {"shards": 8, "cases": 100, "timeout_s": 900, "min_evaluations": 600,
               "min_counters": {"pool_runs": 1500, "extension_runs": 1000, "hashseed_child_digests": 1500}},
-    "thorough": {"shards": 16, "cases": 400, "timeout_s": 3300, "min_evaluations": 5000,
+    "thorough": {"shards": 16, "cases": 700, "timeout_s": 3300, "min_evaluations": 5000,
                  "min_counters": {"pool_runs": 30000}},
 }
 POOLS = (1, 2, 4, 8)
